@@ -482,10 +482,22 @@ class Effects:
             base = base.value
         if not isinstance(base, ast.Name) or isinstance(n.slice, ast.Slice):
             return set()
-        if base.id not in REGISTRIES or self._is_local(base.id, f):
+        if self._is_local(base.id, f):
             return set()
         if self.profile == "faults":
             return set()
+        if base.id not in REGISTRIES:
+            # any other module-level dict of the package (VENDORS, ...) read with a key that is
+            # not one of its literal keys
+            b = f.module.lookup(base.id)
+            v = getattr(b.node, "value", None) if b is not None and b.kind == "assign" else None
+            if not isinstance(v, (ast.Dict, ast.DictComp)) or n.value is not base:
+                return set()
+            if isinstance(v, ast.Dict):
+                k = self.model.try_fold(n.slice, f.module, f.cls)
+                keys = [self.model.try_fold(x, b.module) for x in v.keys if x is not None]
+                if k is not None and k in keys:
+                    return set()
         from .cfg import cfg_of
         from .atoms import Atomizer, must_facts
         try:
@@ -518,10 +530,28 @@ class Effects:
                 out |= self._buffer_index(n, f)
             elif isinstance(n, (ast.Compare, ast.BinOp)):
                 out |= self._optional_operand(n, f)
+            elif isinstance(n, ast.Name) and isinstance(n.ctx, ast.Load):
+                out |= self._unresolved_name(n, f)
         for n in A.walk_no_nested(e):
             if isinstance(n, ast.Call):
                 out |= self._optional_receiver(n, f)
         return out
+
+    def _unresolved_name(self, n: ast.Name, f: FuncInfo) -> set[str]:
+        """NameError: a global the module's namespace does not bind (e.g. a constant that a
+        `from .peer import *` no longer brings along because it left the exporter's `__all__`)."""
+        if self.profile == "faults":
+            return set()
+        key = id(f.node)
+        cache = self.__dict__.setdefault("_unresolved", {})
+        if key not in cache:
+            from .names import unresolved_names
+            cache[key] = {id(x): nm for nm, x in unresolved_names(f)}
+            cache[key]["names"] = {nm for nm, _ in unresolved_names(f)}
+        if n.id in cache[key]["names"]:
+            self._note(f, n, {"NameError"}, f"`{n.id}` resolves to nothing in {f.module.name}")
+            return {"NameError"}
+        return set()
 
     def _optional_receiver(self, c: ast.Call, f: FuncInfo) -> set[str]:
         """AttributeError for a method call on an AVP attribute of a typed message (None when
@@ -1149,6 +1179,18 @@ class Effects:
     def _ctor(self, ci: ClassInfo, c: ast.Call, f: FuncInfo) -> set[str]:
         out = set()
         if ci.name in self.exc_classes:
+            return out
+        ename = {b for k in self.model.mro(ci) for b in self.model.base_names(k)}
+        if ename & {"Enum", "IntEnum", "Flag", "StrEnum", "enum.Enum", "enum.IntEnum",
+                    "enum.Flag", "enum.StrEnum"} and len(c.args) == 1:
+            # Enum(value) is a lookup: ValueError for a value that is no member (for a Flag: that
+            # has bits outside the defined ones) - unless the value is one of the literal members
+            members = [self.model.try_fold(v, ci.module, ci) for v in ci.class_assigns.values()]
+            k = self.model.try_fold(c.args[0], f.module, f.cls)
+            if self.profile != "faults" and (k is None or k not in members):
+                self._note(f, c, {"ValueError"}, f"{ci.name}({ast.unparse(c.args[0])[:40]}): enum lookup "
+                           f"of a value that need not be a member (members: {members[:6]})")
+                out.add("ValueError")
             return out
         for m in ("__init__", "__post_init__"):
             g = self.model.find_method(ci, m)
